@@ -108,10 +108,15 @@ var OddMods = []ModPool{
 	{"b\\q\"uote", []string{"v1.0.0"}, nil},
 	{"b\\(paren)", []string{"v1.0.0"}, nil},
 	{"trail\\", []string{"v1.0.0"}, nil},
+	{"end//", []string{"v1.0.0"}, nil}, // comment markers as the very last bytes
+	{"end/*", []string{"v1.0.0"}, nil},
 }
 
 // WinDirs are directory arguments accepted by the use directive of go.work (replace rejects them on
 // a non-Windows system).
+// MarkerDirs end in what would start a comment.
+var MarkerDirs = []string{"./b//", "./vendor/*", "../forks/a//", "./x/*"}
+
 var WinDirs = []string{"C:\\Users\\gopher\\my mods\\a", ".\\win", ".\\win dir", "..\\up,comma", "D:\\x\\"}
 
 var Dirs = []string{"./nb\u00a0sp", "./ideo\u3000x", "./a", "../b", "/abs/dir", "./x y", ".", "..", "./a/b", "./c", "./d", "C:/dir", "./é"}
@@ -225,6 +230,9 @@ func (g *genState) line(verb string) Directive {
 		}
 		if rapid.Bool().Draw(t, "todir") {
 			d.Args = []string{m.Path, old, pick(t, Dirs, "dir"), ""}
+			if g.o.OddPaths && gen.Chance(t, 8, "markerdir") {
+				d.Args[2] = pick(t, MarkerDirs, "markerdir")
+			}
 		} else {
 			n := g.mod()
 			d.Args = []string{m.Path, old, n.Path, g.version(n)}
@@ -251,6 +259,9 @@ func (g *genState) line(verb string) Directive {
 		d.Args = []string{pick(t, Dirs, "usedir")}
 		if g.o.OddPaths && gen.Chance(t, 15, "windir") {
 			d.Args = []string{pick(t, WinDirs, "windir")}
+		}
+		if g.o.OddPaths && gen.Chance(t, 8, "markerdir") {
+			d.Args = []string{pick(t, MarkerDirs, "markerdir")}
 		}
 	}
 	d.Quote = make([]bool, len(d.Args))
@@ -467,7 +478,7 @@ func (d Directive) SuffixComment() string {
 	case d.Indirect && d.Suffix != "":
 		return []string{"// indirect; ", "//indirect; ", "//   indirect; ", "// indirect;  ", "//\tindirect;\t"}[d.Marker%5] + d.Suffix
 	case d.Indirect:
-		return []string{"// indirect", "//indirect", "//  indirect", "//\tindirect", "// indirect"}[d.Marker%5]
+		return []string{"// indirect", "//indirect", "//  indirect", "//\tindirect", "// indirect \t"}[d.Marker%5]
 	case d.Suffix != "":
 		return "// " + d.Suffix
 	}
